@@ -194,6 +194,34 @@ func (ids *vdkIDs) partList(pids []string) []*pdkg.Participant {
 	return out
 }
 
+// partListRef orders a list the way a tamperer would who keeps the order of the concatenation
+// joining ++ remaining ++ leaving of the reference terms (participants are matched by address;
+// unknown ones go last, by address).  With ref == nil or equal lists this is the canonical order.
+func (ids *vdkIDs) partListRef(pids []string, ref *vdkTerms) []*pdkg.Participant {
+	out := ids.partList(pids)
+	if ref == nil || len(out) < 2 {
+		return out
+	}
+	pos := map[string]int{}
+	n := 0
+	for _, l := range [][]string{ref.Join, ref.Rem, ref.Leav} {
+		for _, q := range ids.partList(l) {
+			if _, ok := pos[q.Address]; !ok {
+				pos[q.Address] = n
+				n++
+			}
+		}
+	}
+	rank := func(q *pdkg.Participant) int {
+		if r, ok := pos[q.Address]; ok {
+			return r
+		}
+		return 1 << 20
+	}
+	sort.SliceStable(out, func(i, j int) bool { return rank(out[i]) < rank(out[j]) })
+	return out
+}
+
 func (ids *vdkIDs) pidOf(p *pdkg.Participant) string {
 	if p == nil {
 		return "none"
@@ -735,6 +763,11 @@ func (s *vdkScen) heldTimeout(label int) time.Time {
 }
 
 func (s *vdkScen) terms(t *vdkTerms, tmo time.Time) *pdkg.ProposalTerms {
+	return s.termsRef(t, tmo, nil)
+}
+
+// termsRef: lists ordered along the concatenated order of ref (see partListRef)
+func (s *vdkScen) termsRef(t *vdkTerms, tmo time.Time, ref *vdkTerms) *pdkg.ProposalTerms {
 	schName := s.ids.sch.Name
 	if t.Sch != "ok" && t.Sch != "" {
 		schName = "verif-no-such-scheme"
@@ -750,9 +783,9 @@ func (s *vdkScen) terms(t *vdkTerms, tmo time.Time) *pdkg.ProposalTerms {
 		SchemeID:             schName,
 		GenesisTime:          s.gtime(t.Gt),
 		GenesisSeed:          s.seed(t.Seed),
-		Joining:              s.ids.partList(t.Join),
-		Remaining:            s.ids.partList(t.Rem),
-		Leaving:              s.ids.partList(t.Leav),
+		Joining:              s.ids.partListRef(t.Join, ref),
+		Remaining:            s.ids.partListRef(t.Rem, ref),
+		Leaving:              s.ids.partListRef(t.Leav, ref),
 	}
 }
 
@@ -965,25 +998,25 @@ func (s *vdkScen) buildPacket(st vdkStep) *pdkg.GossipPacket {
 		if S.Tmo != st.T.Tmo {
 			tmoS = s.newTimeout(S.Tmo)
 		}
-		sent = &pdkg.GossipPacket{Packet: &pdkg.GossipPacket_Proposal{Proposal: s.terms(st.T, tmoT)}}
+		sent = &pdkg.GossipPacket{Packet: &pdkg.GossipPacket_Proposal{Proposal: s.termsRef(st.T, tmoT, S)}}
 		signedTerms = s.terms(S, tmoS)
 		signed = &pdkg.GossipPacket{Packet: &pdkg.GossipPacket_Proposal{Proposal: signedTerms}}
 	case "accept":
-		signedTerms = s.terms(S, s.heldTimeout(S.Tmo))
+		signedTerms = s.termsRef(S, s.heldTimeout(S.Tmo), st.T)
 		sent = &pdkg.GossipPacket{Packet: &pdkg.GossipPacket_Accept{Accept: &pdkg.AcceptProposal{Acceptor: s.ids.part(st.Arg)}}}
 		signed = &pdkg.GossipPacket{Packet: &pdkg.GossipPacket_Accept{Accept: &pdkg.AcceptProposal{Acceptor: s.ids.part(st.Sarg)}}}
 	case "reject":
-		signedTerms = s.terms(S, s.heldTimeout(S.Tmo))
+		signedTerms = s.termsRef(S, s.heldTimeout(S.Tmo), st.T)
 		sent = &pdkg.GossipPacket{Packet: &pdkg.GossipPacket_Reject{Reject: &pdkg.RejectProposal{Rejector: s.ids.part(st.Arg)}}}
 		signed = &pdkg.GossipPacket{Packet: &pdkg.GossipPacket_Reject{Reject: &pdkg.RejectProposal{Rejector: s.ids.part(st.Sarg)}}}
 	case "execute":
-		signedTerms = s.terms(S, s.heldTimeout(S.Tmo))
+		signedTerms = s.termsRef(S, s.heldTimeout(S.Tmo), st.T)
 		s.inst++
 		kick := timestamppb.New(time.Now().Add(250*time.Millisecond + time.Duration(s.inst)*time.Microsecond))
 		sent = &pdkg.GossipPacket{Packet: &pdkg.GossipPacket_Execute{Execute: &pdkg.StartExecution{Time: kick}}}
 		signed = sent
 	case "abort":
-		signedTerms = s.terms(S, s.heldTimeout(S.Tmo))
+		signedTerms = s.termsRef(S, s.heldTimeout(S.Tmo), st.T)
 		s.inst++
 		sent = &pdkg.GossipPacket{Packet: &pdkg.GossipPacket_Abort{Abort: &pdkg.AbortDKG{Reason: fmt.Sprintf("verif-%d", s.inst)}}}
 		signed = sent
